@@ -80,3 +80,130 @@ pub proof fn lemma_rt_common_content(c: CommonContent, tail: Seq<u8>)
     lemma_rt_d_opt_str(c.content, enc_opt_str(opt_str_bytes(c.content_expr)) + tail);
     lemma_rt_d_opt_str(c.content_expr, tail);
 }
+
+// ---- counted lists: decoding inverts encoding when it does so for every element ------------------------------
+/// "fd inverts fe on every acceptable element, whatever follows"
+pub open spec fn elem_rt<A, V>(fe: spec_fn(A) -> Seq<u8>, fd: spec_fn(Seq<u8>) -> Dec<V>, view: spec_fn(A) -> V, ok: spec_fn(A) -> bool) -> bool {
+    forall|x: A, tail: Seq<u8>| ok(x) ==> #[trigger] fd(fe(x) + tail) == Dec::Ok(view(x), tail)
+}
+
+// serves: C05
+pub proof fn lemma_enc_seq_front<A>(s: Seq<A>, fe: spec_fn(A) -> Seq<u8>)
+    requires
+        s.len() > 0,
+    ensures
+        enc_seq(s, fe) == fe(s[0]) + enc_seq(s.subrange(1, s.len() as int), fe),
+    decreases s.len(),
+{
+    reveal_with_fuel(enc_seq, 2);
+    broadcast use {seq_axioms::lemma_add_assoc, seq_axioms::lemma_add_empty};
+    let t = s.subrange(1, s.len() as int);
+    if s.len() == 1 {
+        assert(s.drop_last() == Seq::<A>::empty());
+        assert(t == Seq::<A>::empty());
+        assert(Seq::<u8>::empty() + fe(s[0]) == fe(s[0]));
+    } else {
+        lemma_enc_seq_front(s.drop_last(), fe);
+        assert(s.drop_last().subrange(1, s.len() as int - 1) == t.drop_last());
+        assert(s.drop_last()[0] == s[0]);
+        assert(t.last() == s.last());
+    }
+}
+
+// serves: C05
+pub proof fn lemma_rt_seq<A, V>(s: Seq<A>, acc: Seq<V>, tail: Seq<u8>, fe: spec_fn(A) -> Seq<u8>, fd: spec_fn(Seq<u8>) -> Dec<V>, view: spec_fn(A) -> V, ok: spec_fn(A) -> bool)
+    requires
+        elem_rt(fe, fd, view, ok),
+        forall|i: int| 0 <= i < s.len() ==> ok(#[trigger] s[i]),
+    ensures
+        d_seq(s.len(), acc, enc_seq(s, fe) + tail, fd) == Dec::Ok(acc + s.map_values(view), tail),
+    decreases s.len(),
+{
+    reveal_with_fuel(d_seq, 2);
+    broadcast use {seq_axioms::lemma_add_assoc, seq_axioms::lemma_add_empty};
+    if s.len() == 0 {
+        reveal_with_fuel(enc_seq, 2);
+        assert(Seq::<u8>::empty() + tail == tail);
+        assert(acc + s.map_values(view) == acc);
+    } else {
+        let t = s.subrange(1, s.len() as int);
+        lemma_enc_seq_front(s, fe);
+        assert(enc_seq(s, fe) + tail == fe(s[0]) + (enc_seq(t, fe) + tail));
+        assert(ok(s[0]));
+        assert(fd(fe(s[0]) + (enc_seq(t, fe) + tail)) == Dec::Ok(view(s[0]), enc_seq(t, fe) + tail));
+        assert forall|i: int| 0 <= i < t.len() implies ok(#[trigger] t[i]) by {
+            assert(t[i] == s[i + 1]);
+        }
+        lemma_rt_seq(t, acc.push(view(s[0])), tail, fe, fd, view, ok);
+        assert(acc.push(view(s[0])) + t.map_values(view) == acc + s.map_values(view));
+    }
+}
+
+// serves: C05
+pub proof fn lemma_rt_list<A, V>(s: Seq<A>, tail: Seq<u8>, fe: spec_fn(A) -> Seq<u8>, fd: spec_fn(Seq<u8>) -> Dec<V>, view: spec_fn(A) -> V, ok: spec_fn(A) -> bool)
+    requires
+        elem_rt(fe, fd, view, ok),
+        forall|i: int| 0 <= i < s.len() ==> ok(#[trigger] s[i]),
+        s.len() <= u64::MAX,
+    ensures
+        d_list(enc_list(s, fe) + tail, fd) == Dec::Ok(s.map_values(view), tail),
+{
+    broadcast use {seq_axioms::lemma_add_assoc, seq_axioms::lemma_add_empty};
+    lemma_rt_d_uint(s.len() as u64, enc_seq(s, fe) + tail);
+    lemma_rt_seq(s, Seq::<V>::empty(), tail, fe, fd, view, ok);
+    assert(Seq::<V>::empty() + s.map_values(view) == s.map_values(view));
+}
+
+// serves: C05
+/// id lists (targets, child states, onentry/onexit blocks, script regions, ...)
+pub proof fn lemma_rt_id_list(s: Seq<u32>, tail: Seq<u8>)
+    requires
+        s.len() <= u64::MAX,
+    ensures
+        d_list(enc_list(s, f_id()) + tail, fd_id()) == Dec::Ok(s, tail),
+{
+    let view = |x: u32| x;
+    let ok = |x: u32| true;
+    assert forall|x: u32, t: Seq<u8>| ok(x) implies #[trigger] fd_id()(f_id()(x) + t) == Dec::Ok(view(x), t) by {
+        lemma_rt_d_id(x, t);
+    }
+    lemma_rt_list(s, tail, f_id(), fd_id(), view, ok);
+    assert(s.map_values(view) == s);
+}
+
+// serves: C05
+/// string lists (event descriptors, namelists)
+pub proof fn lemma_rt_str_list(s: Seq<String>, tail: Seq<u8>)
+    requires
+        strs_ok(s),
+        s.len() <= u64::MAX,
+    ensures
+        d_list(enc_list(s, f_str()) + tail, fd_str()) == Dec::Ok(strs_v(s), tail),
+{
+    let view = |x: String| sb(x);
+    let ok = |x: String| s_ok(x);
+    assert forall|x: String, t: Seq<u8>| ok(x) implies #[trigger] fd_str()(f_str()(x) + t) == Dec::Ok(view(x), t) by {
+        lemma_rt_d_str(x, t);
+    }
+    lemma_rt_list(s, tail, f_str(), fd_str(), view, ok);
+    assert(s.map_values(view) == strs_v(s));
+}
+
+// serves: C05
+/// <param> lists (None and an empty list are the same record)
+pub proof fn lemma_rt_parameters(p: Option<Vec<Parameter>>, tail: Seq<u8>)
+    requires
+        params_ok(params_seq(p)),
+        params_seq(p).len() <= u64::MAX,
+    ensures
+        d_parameters(enc_parameters(p) + tail) == Dec::Ok(params_v(params_seq(p)), tail),
+{
+    let s = params_seq(p);
+    let view = |x: Parameter| pv(x);
+    let ok = |x: Parameter| parameter_ok(x);
+    assert forall|x: Parameter, t: Seq<u8>| ok(x) implies #[trigger] fd_param()(f_param()(x) + t) == Dec::Ok(view(x), t) by {
+        lemma_rt_parameter(x, t);
+    }
+    lemma_rt_list(s, tail, f_param(), fd_param(), view, ok);
+    assert(s.map_values(view) == params_v(s));
+}
